@@ -150,6 +150,10 @@ func loadKnown(path string) ([]known, error) {
 		}
 		if i := strings.Index(rest, " -- "); i >= 0 {
 			k.text = strings.TrimSpace(rest[i+4:])
+			// the key may contain spaces: it extends from "key=" to " -- "
+			if j := strings.Index(rest[:i], "key="); j >= 0 {
+				k.key = strings.TrimSpace(rest[j+4 : i])
+			}
 		}
 		if k.prop != "" && k.key != "" {
 			out = append(out, k)
